@@ -72,3 +72,21 @@ func InstallRecThreads(n int) []*RecThread {
 	dispatch.InitializeFWThreads(fts)
 	return rts
 }
+
+// TakeAll empties every recording thread and returns the packets handed up, each packet object
+// once: a Data packet without a PIT token is legitimately queued to the threads of all its name
+// prefixes (one reassembled packet, several queues).
+func TakeAll(rts []*RecThread) []*defn.Pkt {
+	var out []*defn.Pkt
+	seen := map[*defn.Pkt]bool{}
+	for _, t := range rts {
+		i, d := t.Take()
+		for _, p := range append(i, d...) {
+			if !seen[p] {
+				seen[p] = true
+				out = append(out, p)
+			}
+		}
+	}
+	return out
+}
